@@ -3,7 +3,7 @@
    and completeness are checked on the implementation's traces (see DESIGN.md, C02). *)
 From Coq Require Import List ZArith NArith Bool Arith.
 Import ListNotations.
-From I2N Require Import Model.Retry Model.Traverse Model.TraverseRun Proofs.TraverseProofs.
+From I2N Require Import Model.Retry Model.Traverse Model.TraverseRun Proofs.TraverseProofs Proofs.TraverseInv.
 Local Open Scope nat_scope.
 
 (* no pick from an exhausted node: the loop picks a child only of a node that is not cleanup-ready
@@ -23,3 +23,9 @@ Theorem C02_dry_run_inert_partial : forall g s i w sc s',
   run_decision g s i w = Some (true, sc, s') -> n_dry (nd g i) = false.
 Proof. intros g s i w sc s' H. apply run_decision_startable in H. unfold startable in H. tauto. Qed.
 Print Assumptions C02_dry_run_inert_partial.
+
+(* for EVERY graph, initial pool population and schedule: in a dry run nothing is executed *)
+Theorem C02_dry_run_no_execution : forall g p sched evs w i u pre l,
+  In evs (snd (run_schedule g (init_state g p) sched)) -> In (EStart w i u pre l) evs -> n_dry (nd g i) = false.
+Proof. intros g p sched evs w i u pre l H1 H2. pose proof (all_starts_ok g p sched evs w i u pre l H1 H2) as H. unfold startable in H. tauto. Qed.
+Print Assumptions C02_dry_run_no_execution.
